@@ -431,8 +431,11 @@ func (seq Sequence) Truncate(width int, resolution time.Duration, asOf time.Time
 			if bytesToRemove+Width64bits >= len(seq) {
 				return nil
 			}
-			result = result[bytesToRemove:]
-			result.SetUntil(until)
+			// copy rather than reslice so that we never write into the original
+			truncated := make(Sequence, len(result)-bytesToRemove)
+			copy(truncated[Width64bits:], result[Width64bits+bytesToRemove:])
+			truncated.SetUntil(until)
+			result = truncated
 		}
 	}
 
